@@ -15,6 +15,7 @@ import (
 	"fmt"
 	"io"
 	"math"
+	"os"
 	"runtime"
 	"runtime/debug"
 	"sort"
@@ -462,7 +463,11 @@ func TestVerifC17_ProxyShardBuffers(t *testing.T) {
 	}
 	// saved regression input of finding F5: one store, one series, one shard; the stream is exhausted,
 	// the loser tree closes it, the deferred Close closes it again: the matcher's buffer is Put twice.
+	skipFixed := os.Getenv("VERIF_SKIP_FIXED") != "" // sensitivity experiments: let only the generator find mutants
 	for _, strat := range []RetrievalStrategy{EagerRetrieval, LazyRetrieval} {
+		if skipFixed {
+			break
+		}
 		c := c17Case{stores: []c17Store{one([2]string{"1", "1"})}, strategy: strat, shard: &storepb.ShardInfo{TotalShards: 1, By: true, Labels: []string{"a"}}, sendFailAt: -1}
 		res := c17Run(c, false)
 		if res.msg != "" {
@@ -484,6 +489,9 @@ func TestVerifC17_ProxyShardBuffers(t *testing.T) {
 		{stores: []c17Store{one([2]string{"1", "1"}, [2]string{"2", "2"}), one([2]string{"1", "2"}, [2]string{"3", "3"})},
 			strategy: LazyRetrieval, shard: &storepb.ShardInfo{TotalShards: 1}, sendFailAt: 0},
 	} {
+		if skipFixed {
+			break
+		}
 		if res := c17Run(c, known); res.msg != "" {
 			rec.Violation(t, "fixed input: %s | %s", res.msg, c.String())
 		}
